@@ -187,6 +187,32 @@ type MultiStore struct {
 	Keys   []storetypes.StoreKey
 	Stores []*Store
 	parent *MultiStore
+	// Att: state of environment stubs that lives "in the multistore" of a real application (the bank balances):
+	// it is branched by CacheMultiStore and written back by Write, like the KV stores. nil = same as the parent's.
+	Att AttState
+}
+
+// AttState is stub state that follows the store's cache/commit discipline.
+type AttState interface{ CloneAtt() AttState }
+
+// AttGet returns the attached state visible at this layer.
+func (m *MultiStore) AttGet() AttState {
+	for x := m; x != nil; x = x.parent {
+		if x.Att != nil {
+			return x.Att
+		}
+	}
+	return nil
+}
+
+// AttForWrite returns this layer's own copy of the attached state (copy-on-write).
+func (m *MultiStore) AttForWrite() AttState {
+	if m.Att == nil {
+		if cur := m.AttGet(); cur != nil {
+			m.Att = cur.CloneAtt()
+		}
+	}
+	return m.Att
 }
 
 var _ storetypes.CacheMultiStore = (*MultiStore)(nil)
@@ -222,6 +248,10 @@ func (m *MultiStore) Write() {
 	}
 	for i, k := range m.Keys {
 		m.parent.KV(k).E = m.Stores[i].E
+	}
+	if m.Att != nil {
+		m.parent.Att = m.Att
+		m.Att = nil
 	}
 }
 
